@@ -34,11 +34,13 @@ void splNew(const json &in, json &out) {
 template <typename T>
 void splEval(const json &in, json &out) {
   const json &ja = in.at("a");
-  const Grid<T> g = mkGrid<T>(ja.at("g"));
+  const auto gp = opGrid<T>(ja.at("g"));
+  const Grid<T> &g = *gp;
   withOrder(ja.at("o").get<size_t>(), [&](auto O) {
     constexpr size_t ord = decltype(O)::value;
     if constexpr (ord <= OPMAX) {
-      const Spline<T, ord> p = mkSpline<T, ord>(ja, g);
+      const auto pp = opSpline<T, ord>(ja, g);
+      const Spline<T, ord> &p = *pp;
       out["a"] = projSpline(p);
       json vals = json::array();
       for (const auto &jx : in.at("xs")) vals.push_back(Codec<T>::enc(p(Codec<T>::dec(jx))));
@@ -55,13 +57,15 @@ void splEval(const json &in, json &out) {
 template <typename T>
 void splUn(const json &in, json &out) {
   const json &ja = in.at("a");
-  const Grid<T> g = mkGrid<T>(ja.at("g"));
+  const auto gp = opGrid<T>(ja.at("g"));
+  const Grid<T> &g = *gp;
   const T k = Codec<T>::dec(in.at("k"));
   const bool kz = (k == static_cast<T>(0));
   withOrder(ja.at("o").get<size_t>(), [&](auto O) {
     constexpr size_t ord = decltype(O)::value;
     if constexpr (ord <= OPMAX) {
-      const Spline<T, ord> p = mkSpline<T, ord>(ja, g);
+      const auto pp = opSpline<T, ord>(ja, g);
+      const Spline<T, ord> &p = *pp;
       out["a"] = projSpline(p);
       out["mulr"] = projSpline(p * k);
       out["mull"] = projSpline(k * p);
@@ -104,15 +108,21 @@ void splUn(const json &in, json &out) {
 template <typename T>
 void splBin(const json &in, json &out) {
   const json &ja = in.at("a"), &jb = in.at("b");
-  const Grid<T> ga = mkGrid<T>(ja.at("g"));
+  const auto gap = opGrid<T>(ja.at("g"));
+  const Grid<T> &ga = *gap;
   const bool share = in.value("share", 0) != 0;
-  const Grid<T> gb = share ? ga : mkGrid<T>(jb.at("g"));
+  // share = 0: b lives on its own Grid instance (in threaded mode equal grids are one shared instance)
+  const auto gbp = (share || opCache().mode != 0) ? (share ? gap : opGrid<T>(jb.at("g")))
+                                                  : std::shared_ptr<const Grid<T>>(new Grid<T>(decVec<T>(jb.at("g"))));
+  const Grid<T> &gb = *gbp;
   withOrder(ja.at("o").get<size_t>(), [&](auto OA) {
     withOrder(jb.at("o").get<size_t>(), [&](auto OB) {
       constexpr size_t oa = decltype(OA)::value, ob = decltype(OB)::value;
       if constexpr (oa <= OPMAX && ob <= OPMAX) {
-        const Spline<T, oa> a = mkSpline<T, oa>(ja, ga);
-        const Spline<T, ob> b = mkSpline<T, ob>(jb, gb);
+        const auto ap = opSpline<T, oa>(ja, ga);
+        const auto bp = opSpline<T, ob>(jb, gb);
+        const Spline<T, oa> &a = *ap;
+        const Spline<T, ob> &b = *bp;
         out["a"] = projSpline(a);
         out["b"] = projSpline(b);
         guarded(out, "add", [&] { out["add_v"] = projSpline(a + b); });
